@@ -218,7 +218,16 @@ func (it *Interp) setupCodecIntrinsics() {
 		switch u := data.T.Underlying().(type) {
 		case *types.Pointer:
 			elemT = u.Elem()
-			n = it.fixedSize(nil, elemT)
+			if st, ok := elemT.Underlying().(*types.Slice); ok {
+				// pointer to slice: fill the slice it points to
+				sl := it.load(data.V.(Ptr)).(SliceV)
+				data = Iface{T: elemT, V: sl}
+				elemT = st.Elem()
+				isSlice = true
+				n = it.fixedSize(sl, data.T)
+			} else {
+				n = it.fixedSize(nil, elemT)
+			}
 		case *types.Slice:
 			elemT = u.Elem()
 			isSlice = true
